@@ -96,6 +96,7 @@ type Ctl struct {
 	mut        int // mutating operations
 	crashAtMut int // freeze before this mutating op (1-based); 0 = never
 	failAt     map[int]bool
+	failAtMut  int // fail this mutating op (absolute count) with EIO, without effect; 0 = never
 	frozen     bool
 	budget     int
 	keepLog    bool
@@ -122,6 +123,7 @@ func Reset(c Config) {
 	ctl.ops, ctl.mut, ctl.tmpSeq = 0, 0, 0
 	ctl.crashAtMut = c.CrashAtMut
 	ctl.failAt = c.FailAt
+	ctl.failAtMut = 0
 	ctl.frozen = false
 	ctl.budget = c.Budget
 	ctl.keepLog = c.KeepLog
@@ -161,6 +163,18 @@ func SetCrashAtMut(k int) {
 		ctl.crashAtMut = 0
 	} else {
 		ctl.crashAtMut = ctl.mut + k
+	}
+	ctl.mu.Unlock()
+}
+
+// SetFailAtMut arms a one-shot I/O error: the k-th mutating operation from now (k>=1)
+// fails with EIO and has no effect; 0 disarms.
+func SetFailAtMut(k int) {
+	ctl.mu.Lock()
+	if k == 0 {
+		ctl.failAtMut = 0
+	} else {
+		ctl.failAtMut = ctl.mut + k
 	}
 	ctl.mu.Unlock()
 }
@@ -208,6 +222,11 @@ func begin(name string, mutating bool, path string) error {
 	}
 	frozen := ctl.frozen
 	fail := !frozen && ctl.failAt[ctl.ops]
+	if !frozen && mutating && ctl.failAtMut > 0 && ctl.mut == ctl.failAtMut {
+		fail = true
+		ctl.failAtMut = 0
+		ctl.fired["eio-at-"+name+"-"+pathClass(path)]++
+	}
 	if fail {
 		ctl.fired["eio"]++
 	}
